@@ -24,6 +24,10 @@ R06.9 one family per CPU class: under the same CPU facts the dispatchers of <alg
 R06.10 lane identifiers: where a manager init function writes lane numbers into lens[] (the SHA-512 managers keep the
       lane index in the low half of each lens word and never rewrite it), it writes lens[j] = j for every lane j on
       the free-lane stack it builds - replayed on the IR skeleton (lib/irskel.py), loops included.
+R06.11 the minimum is subtracted from every lane (lib/lanemin.py): in each assembly manager that updates lens[] with
+      vector subtractions, every 128-bit lane of the subtrahend depends on every 16-byte granule of lens[] loaded so
+      far - the min-reduction tree and the broadcast behind it leave no part of the register out.  Dependence sets
+      on the length skeleton; presence only.
 R06.5 field width: every write at a fixed offset into a scalar field of the manager struct (unused_lanes,
       num_lanes_inuse) starts at the field and has the field's width.
 R06.6 struct mirror: the offsets the assembly uses for job / manager / lane fields (nasm struct symbols) equal the
@@ -311,6 +315,37 @@ def run(chk):
                 j = badl[0]
                 chk.finding(Finding("R06.10", src, F.name, "lane-id:%d" % j, "lens[%d] is initialised to %d, but lane %d is on the free-lane stack and the managers take the lane number from the low half of lens[]: jobs in lane %d are attributed to lane %d" % (j, lens_final.get(j, 0) & 0xFFFFFFFF, j, j, lens_final.get(j, 0) & 0xFFFFFFFF), loc="%s:%s" % (F.file, F.line)))
     chk.floor("manager init functions that keep lane numbers in lens[]", n610, 3)
+    # ---- R06.11
+    import lanemin
+    lens_rng = {}
+    for src, M in sorted(allmods.items()):
+        algo = src.split("_mb/")[0]
+        for sn, ds in M.distructs.items():
+            if sn.endswith("_MB_JOB_MGR"):
+                for m_ in ds["members"]:
+                    if m_["name"] == "lens":
+                        lens_rng[algo] = (m_["off"], m_["off"] + m_["size"])
+    n611 = nsub = 0
+    for key, name in lib.entry_list:
+        mm = _re.match(r"^_(sha1|sha256|sha512|md5|sm3)_mb_mgr_(submit|flush)_(\w+)$", name)
+        if not mm or mm.group(1) not in lens_rng:
+            continue
+        f = lib.func(key)
+        mch = lanemin.LaneMachine(lib, f, {"RDI": ("p", "state", 0), "RSI": ("p", "job", 0)}, lens_rng[mm.group(1)])
+        mch.run()
+        if not mch.subs:
+            continue
+        n611 += 1
+        nsub += len(mch.subs)
+        bad = [(i, miss) for (i, miss) in mch.subs if any(miss)]
+        chk.obligation("R06.11", not bad, key=name, sample={"function": name, "vector_subtractions_from_lens": len(mch.subs)})
+        if bad:
+            i, miss = bad[0]
+            j = [k for k, m_ in enumerate(miss) if m_][0]
+            chk.finding(Finding("R06.11", f.obj.name, name, "lane-min", "`%s`: 128-bit lane %d of the value subtracted from lens[] does not depend on %d of the %d lens granules read (e.g. lens bytes %d..%d): the lanes updated through that part of the register keep their old length although the kernel advanced their data" % (
+                i.text.strip(), j, len(miss[j]), len(mch.seen), 16 * miss[j][0][1] - lens_rng[mm.group(1)][0], 16 * miss[j][0][1] - lens_rng[mm.group(1)][0] + 15), loc=f.obj.line_of(f.sec, i.addr)))
+    chk.floor("assembly managers with vector subtractions from lens[]", n611, 20)
+    chk.floor("vector subtractions from lens[] judged", nsub, 40)
 
     def group_of(iface):
         m = _re.match(r"^_(sha1|sha256|sha512|md5|sm3)_ctx_mgr_(init|submit|flush)$", iface)
